@@ -2,8 +2,8 @@
 
 B1  TLC checks RoutingModel's group routing (all pairwise disjoint combinations, "every list crossed, else only LOOSE
     lists missed, else DisjunctionError") against the C12 clauses of Routing.tla: exhaustively for ALL pairs of
-    requests (include lists of <= 1 ROADM, both labels) on all 64 weighted 3-site meshes, and for seeded pairs,
-    triples and overlapping pairs on 4-site meshes (quick: sample, thorough: all 4 096).
+    requests (include lists of <= 1 ROADM, both labels) on all 125 3-site meshes (links: none, 0 km amplifier-only patch, 50, 140, 300 km), and for seeded pairs,
+    triples and overlapping pairs on 4-site meshes (quick: sample, thorough: all 15 625).
 B2  generated (mesh, batch) cases - pairs (some with a free rider, some with the group stated twice), one triple,
     two overlapping pairs, include lists over ROADMs and fibres - go through the real pipeline; the routes or the
     DisjunctionError are judged by TLC (Trace_Routing): link identity is the generator's (a fibre pair = one link),
@@ -21,8 +21,8 @@ from harness.core import Machinery
 PID = 'C12'
 
 TIERS = {
-    'quick': dict(meshes4=200, pairs=24, triples=4, overlaps=4, meshes5=0, b3=60),
-    'thorough': dict(meshes4=None, pairs=40, triples=8, overlaps=8, meshes5=200, b3=400),
+    'quick': dict(meshes4=200, pairs=24, triples=4, overlaps=8, meshes5=0, b3=60),
+    'thorough': dict(meshes4=None, pairs=12, triples=3, overlaps=4, meshes5=200, b3=400),
 }
 
 
@@ -30,13 +30,13 @@ def b1_runs(ids4, p, w):
     consts = dict(Thin=0, LinePer=0, TwinPer=0, PairPer=p['pairs'], TriplePer=p['triples'], OverlapPer=p['overlaps'])
 
     def small():
-        return ('MC_Routing 3 sites: all 64 meshes, ALL pairs of requests (<= 1 ROADM include each), triples, overlaps',
+        return ('MC_Routing 3 sites: all 125 meshes, ALL pairs of requests (<= 1 ROADM include each), triples, overlaps',
                 tlc.run('MC_Routing', cfg_file='MC_Routing_small.cfg', timeout=1800, tag='c12-mc3', workers=w))
 
     def four():
         if ids4 is None:
-            return ('MC_Routing 4 sites: all 4096 meshes, seeded pairs/triples/overlapping pairs',
-                    tlc.run('MC_Routing', cfg_text=ru.mc_cfg(**consts), timeout=3000, tag='c12-mc4', workers=w))
+            return ('MC_Routing 4 sites: all 15625 meshes, seeded pairs/triples/overlapping pairs',
+                    tlc.run('MC_Routing', cfg_text=ru.mc_cfg(**consts), timeout=6000, tag='c12-mc4', workers=w))
         return (f'MC_Routing 4 sites: {len(ids4)} sampled meshes, seeded pairs/triples/overlapping pairs',
                 tlc.run('MC_Routing', cfg_text=ru.mc_cfg(UseSample=True, **consts), workers=w,
                         extra_modules={'RoutingSample': ru.sample_module(ids4)}, timeout=1800, tag='c12-mc4'))
@@ -51,17 +51,24 @@ def run(chk):
     rng = random.Random(chk.seed + 12)
     salt = (chk.seed + 12) % 10007
     all4 = p['meshes4'] is None
-    ids4 = list(range(1, 4096)) if all4 else [i for i in ru.stratified_meshes(4, p['meshes4'], rng) if i != 0]
+    ids4 = list(range(1, ru.BASE ** 6)) if all4 else [i for i in ru.stratified_meshes(4, p['meshes4'], rng) if i != 0]
     t0 = time.time()
     consts = dict(OneSrcDst=True, Thin=0, LinePer=0, TwinPer=0, PairPer=p['pairs'], TriplePer=p['triples'],
                   OverlapPer=p['overlaps'], Salt=salt)
-    w = ru.share(3)
-    small, four = b1_runs(None if all4 else ids4, p, w)
-    parts = ru.slices(ids4, 1024)              # bounded memory
-    (n1, r1), (n2, r2), jobs = ru.parallel(small, four,
-                                           lambda: ru.generate(chk, parts[0], 'c12-gen4', workers=w, NSites=4, **consts))
+    parts = ru.slices(ids4, 4096)              # bounded memory
+    big = None
+    if all4:                                   # the exhaustive 4-site run goes on beside the whole replay
+        small, four = b1_runs(None, p, max(2, ru.nworkers() // 2))
+        big = ru.background(four)
+        w = ru.share(4)
+        (n1, r1), jobs = ru.parallel(small, lambda: ru.generate(chk, parts[0], 'c12-gen4', workers=w, NSites=4, **consts))
+    else:
+        w = ru.share(3)
+        small, four = b1_runs(ids4, p, w)
+        (n1, r1), (n2, r2), jobs = ru.parallel(
+            small, four, lambda: ru.generate(chk, parts[0], 'c12-gen4', workers=w, NSites=4, **consts))
+        chk.add_mc(n2, r2)
     chk.add_mc(n1, r1)
-    chk.add_mc(n2, r2)
     chk.exhaustive = True
     timing = dict(b1_and_first_generation=round(time.time() - t0, 1))
     t1 = time.time()
@@ -97,9 +104,15 @@ def run(chk):
     t1 = time.time()
     b3(chk, p, rng)
     timing['b3'] = round(time.time() - t1, 1)
+    if big is not None:
+        t1 = time.time()
+        n2, r2 = big.result()
+        chk.add_mc(n2, r2)
+        timing['waited_for_exhaustive_b1'] = round(time.time() - t1, 1)
     chk.cov['timing_s'] = timing
     chk.assume('generated meshes: 4 (thorough also 5) ROADM sites, at least one link, no parallel links (the code '
-               'documents that reversed paths are not exact with parallel links), fibre pairs of 100/200/300 km')
+               'documents that reversed paths are not exact with parallel links), fibre pairs of 50/140/300 km or 0 km '
+               'amplifier-only patches')
     chk.assume('candidate routes have far fewer than 80 elements (the documented search cut-off of all_simple_paths)')
     chk.assume('completeness (an error only when no link-disjoint combination honours the route constraints) is judged '
                'for a single pair only; for a triple / overlapping pairs only what is returned is judged')
